@@ -212,11 +212,24 @@ def dump_states(module, cfg, workers=8, timeout=3600, env=None):
         r = run(module, cfg, env=env, workers=workers, timeout=timeout, extra=["-dump", path])
         states = []
         fn = path + ".dump" if os.path.exists(path + ".dump") else path
-        txt = open(fn).read()
         # (TLC's workers write the states in an order that differs from run to run: sorted, so that everything sampled
-        #  from them with a seeded generator is the same in every run)
-        for blk in sorted(b.strip() for b in re.split(r"^State \d+:\s*$", txt, flags=re.M) if b.strip()):
-            states.append(parse_state(blk))
+        #  from them with a seeded generator is the same in every run; read block by block - dumps reach gigabytes)
+        blocks, cur = [], []
+        with open(fn) as f:
+            for ln in f:
+                if re.match(r"^State \d+:\s*$", ln):
+                    if cur:
+                        blocks.append("".join(cur).strip())
+                    cur = []
+                else:
+                    cur.append(ln)
+        if cur:
+            blocks.append("".join(cur).strip())
+        blocks = [b for b in blocks if b]
+        blocks.sort()
+        blocks.reverse()
+        while blocks:
+            states.append(parse_state(blocks.pop()))
         return r, states
     finally:
         shutil.rmtree(td, ignore_errors=True)
